@@ -1279,8 +1279,12 @@ def model_lines_for_config(case, obs) -> list[tuple[str, Any]]:
         if len(c) > 2:
             fmt_tok[len(funcs) - 1] = f" a={rat(a)} pos={int(pos)}"
     udn = used_design_names(case)
+    if obs.get("n_funcs") != len(funcs):
+        # the formulation does not expose the functions the model expects (the oracle reports the count)
+        out.append(("nfuncs " + str(len(funcs)), ("nfuncs", obs)))
+        return out
     for rec in obs["evals"]:
-        if "error" in rec:
+        if "error" in rec or len(rec.get("vals", [])) != len(funcs):
             continue
         xv = [F(a) for n in names for a in rec["point"][n]]
         if form == "IDF":
@@ -1349,6 +1353,8 @@ def diff_model(lines, plan, n_def, answers, res: Result) -> list[dict[str, Any]]
                 dis.append({"line": line, "model": ans, "impl": impl, "cfg": cfg_key(obs["cfg"])})
             else:
                 res.traces_validated += 1
+        elif kind == "nfuncs":
+            dis.append({"line": line, "model": line.split()[1], "impl": exp[1].get("n_funcs")})
         elif kind == "eval":
             _, rec, k, exact, mda = exp
             pm = parse_model_eval(ans)
